@@ -100,6 +100,54 @@ def shiftLoop (shift : Nat) : Nat → List Nat → Nat → Except Err (List Nat)
     let b ← wr b wo v
     shiftLoop shift n b (wo + 1)
 
+/-! The loop above costs `O(seq_len * offset)` on lists. The driver runs the closed form instead; the
+replacement is *proved* equal for every input (`@[csimp]`), so nothing is trusted here. -/
+
+theorem index_eq (d : List Nat) (i : Nat) (h : i < d.length) : RBuf.index d i = .ok d[i] := by
+  simp [RBuf.index, List.getElem?_eq_getElem h]
+
+theorem shiftLoop_eq (shift : Nat) : ∀ (n : Nat) (b : List Nat) (wo : Nat), wo + shift + n ≤ b.length →
+    shiftLoop shift n b wo = .ok (b.take wo ++ (b.drop (wo + shift)).take n ++ b.drop (wo + n)) := by
+  intro n
+  induction n with
+  | zero => intro b wo _; simp [shiftLoop, pure, Except.pure]
+  | succ n ih =>
+    intro b wo h
+    have h1 : wo + shift < b.length := by omega
+    have h2 : wo < b.length := by omega
+    simp only [shiftLoop, index_eq b _ h1, bind, Except.bind, wr, h2, if_true]
+    rw [ih _ _ (by simp; omega)]
+    congr 1
+    have e1 : List.take (wo + 1) (b.set wo b[wo + shift]) = List.take wo b ++ [b[wo + shift]] := by
+      rw [List.set_eq_take_append_cons_drop]
+      simp only [h2, if_true]
+      have : wo + 1 = (List.take wo b ++ [b[wo + shift]]).length := by simp; omega
+      rw [show List.take wo b ++ b[wo + shift] :: List.drop (wo + 1) b = (List.take wo b ++ [b[wo + shift]]) ++ List.drop (wo + 1) b by simp]
+      rw [this, List.take_append_length]
+    have e2 : List.drop (wo + 1 + shift) (b.set wo b[wo + shift]) = List.drop (wo + 1 + shift) b :=
+      List.drop_set_of_lt (by omega)
+    have e3 : List.drop (wo + 1 + n) (b.set wo b[wo + shift]) = List.drop (wo + 1 + n) b :=
+      List.drop_set_of_lt (by omega)
+    rw [e1, e2, e3]
+    have e4 : List.take (n + 1) (List.drop (wo + shift) b) = b[wo + shift] :: List.take n (List.drop (wo + 1 + shift) b) := by
+      rw [List.drop_eq_getElem_cons h1, List.take_succ_cons]
+      congr 3; omega
+    rw [e4, show wo + (n + 1) = wo + 1 + n by omega]
+    simp
+
+
+/-- `shiftLoop` in one step (falls back to the loop where the loop would panic) -/
+def shiftLoopFast (shift n : Nat) (b : List Nat) (wo : Nat) : Except Err (List Nat) :=
+  if wo + shift + n ≤ b.length then .ok (b.take wo ++ (b.drop (wo + shift)).take n ++ b.drop (wo + n))
+  else shiftLoop shift n b wo
+
+@[csimp] theorem shiftLoop_eq_fast : @shiftLoop = @shiftLoopFast := by
+  funext shift n b wo
+  unfold shiftLoopFast
+  split
+  · rename_i h; exact shiftLoop_eq shift n b wo h
+  · rfl
+
 /-- `end_compound()` -/
 def W.endCompound (w : W) : Except Err W :=
   if w.cur = 0 then .error .invalid
